@@ -1,0 +1,13 @@
+//go:build verif
+
+package util
+
+// VerifYield, when set, is called at the entry of the change collector's read
+// methods, before they take the collector's lock (verification harness only).
+var VerifYield func(point string)
+
+func vyield(point string) {
+	if f := VerifYield; f != nil {
+		f(point)
+	}
+}
